@@ -6,7 +6,7 @@ use std::{
 
 use crate::{
   managed::{Allocate, AllocateObj, DebugHeap, Trace, TraceRoot},
-  object::{Class, LyStr},
+  object::{Channel, Class, LyStr},
   reference::ObjRef,
   value::{Value, VALUE_NIL},
   Allocator, Call,
@@ -112,6 +112,12 @@ impl<'a> Hooks<'a> {
   /// Provide a signal that the roots should be scanned for forwarded pointer
   pub fn scan_roots(&mut self) {
     self.as_value().scan_roots();
+  }
+
+  /// Tell the surrounding context that the running fiber changed the
+  /// state of this channel, so that it wakes the fibers waiting on it
+  pub fn use_channel(&mut self, channel: ObjRef<Channel>) {
+    self.as_value().use_channel(channel);
   }
 }
 
@@ -229,6 +235,12 @@ impl<'a> ValueHooks<'a> {
   fn scan_roots(&mut self) {
     self.context.scan_roots();
   }
+
+  /// Tell the surrounding context that the running fiber changed the
+  /// state of this channel
+  fn use_channel(&mut self, channel: ObjRef<Channel>) {
+    self.context.use_channel(channel);
+  }
 }
 
 /// A set of functions related to calling laythe values
@@ -247,6 +259,10 @@ pub trait ValueContext {
 
   /// Provide a signal that the roots should be scanned for forwarded pointer
   fn scan_roots(&mut self);
+
+  /// The running fiber changed the state of this channel. Contexts
+  /// without fibers have nobody to wake
+  fn use_channel(&mut self, _channel: ObjRef<Channel>) {}
 }
 
 /// A set of functionality required by the hooks objects in order to operate
